@@ -86,3 +86,104 @@ Proof.
   exists s. split; [exact Hs|]. split; [exact HA|].
   vm_compute in Hs. inversion Hs; subst. split; reflexivity.
 Qed.
+
+(* ======================================================================================================
+   Attribute / API layer (Model/ConcatAttrs.v): add hole, add data, set values / surveys, rename, remove data /
+   group / hole (through the workspace or the parent), explicit group, re-open.                              *)
+From GV Require Import Model.ConcatAttrs Proofs.ConcatAttrsProofs.
+
+(* after ANY sequence of API operations every state that is reached has exactly tiled tables
+   (each operation acts on the tables only through update_array_attribute, so C04_tiled_preserved applies) *)
+Theorem C04_api_tiled : forall ops : list aop, Forall out_tiled (arun init ops).
+Proof. exact api_tiled. Qed.
+Print Assumptions C04_api_tiled.
+
+(* removing a hole removes the rows of its own arrays (Surveys, Trace, Property Group IDs): no row of those labels
+   carries its Object ID afterwards  [the repaired behaviour: /repo commit 8a1b56f] *)
+Theorem C04_hole_removal_clears_own_rows : forall s h v s',
+  AllTiled (st s) -> outcome (api_step s (RemoveHole h v)) = Some s' ->
+  forall lab, lab < 3 -> forall t r, sget lab (st s') = Some t -> In r (rows t) -> oid r <> h.
+Proof. exact remove_hole_clears. Qed.
+Print Assumptions C04_hole_removal_clears_own_rows.
+
+(* "no stale entry": every index row belongs to a live hole (its Object ID is in `Concatenated object IDs`) *)
+Definition C04_no_stale_entry_full : Prop := forall ops s, reaches ops s -> rows_live s.
+
+Definition stale_witness : list aop :=
+  [AddHole 1 None; AddData 1 0 100 2 3 4 (Some [Some 1000%Z]) [Some 5%Z]; Rename 1 4 104; Reopen; RemoveHole 1 false].
+
+(* REFUTED: a renamed data set keeps its row under the old label; removing the hole (after a re-open) looks for the new
+   label only, so the row stays behind with the Object ID of a hole that no longer exists *)
+Theorem C04_no_stale_entry_refuted : ~ C04_no_stale_entry_full.
+Proof.
+  intros H.
+  assert (R : reaches stale_witness
+                (mkst [(2, mktab [] []); (10, mktab [] []); (100, mktab [mkrow 0 1 1 4] [Some 5%Z])] [] [])).
+  { split; vm_compute; reflexivity. }
+  specialize (H _ _ R 100 (mktab [mkrow 0 1 1 4] [Some 5%Z]) (mkrow 0 1 1 4) eq_refl (or_introl eq_refl)).
+  simpl in H. exact H.
+Qed.
+Print Assumptions C04_no_stale_entry_refuted.
+
+(* PARTIAL: in histories without hole removal every row belongs to a live hole.
+   Missing for the full property: histories with both a rename and a later removal of that hole (the witness above);
+   a proof under the exact side condition "no rename" needs the invariant row <-> Property key, which is checked on every
+   run by the correspondence and the oracle only. *)
+Theorem C04_rows_live_partial : forall ops s,
+  forallb (fun op => negb (is_remove_hole op)) ops = true -> reaches ops s -> rows_live s.
+Proof.
+  intros ops s Hq [Hlen Hlast]. exact (run_rows_live ops init s Hq rows_live_init Hlen Hlast).
+Qed.
+Print Assumptions C04_rows_live_partial.
+
+(* every "Property:<name>" key of a hole record names a data record of that name *)
+Definition keys_named (s : astate) : Prop :=
+  forall rh lab d, In rh (recs s) -> a_kind rh = KHole -> In (lab, d) (a_props rh) ->
+  exists rd, find_rec d (recs s) = Some rd /\ a_name rd = lab.
+Definition C04_keys_match_names_full : Prop := forall ops s, reaches ops s -> keys_named s.
+
+(* REFUTED: Rename rewrites the data record's Name only; the hole keeps "Property:<old name>" *)
+Theorem C04_keys_match_names_refuted : ~ C04_keys_match_names_full.
+Proof.
+  intros H.
+  pose (ops := [AddHole 1 None; AddData 1 0 100 2 3 4 (Some [Some 1000%Z]) [Some 5%Z]; Rename 1 4 104]).
+  destruct (last_state init (arun init ops)) as [s|] eqn:E; [|vm_compute in E; discriminate].
+  assert (R : reaches ops s) by (split; [vm_compute; reflexivity | exact E]).
+  specialize (H _ _ R). vm_compute in E. inversion E; subst; clear E.
+  destruct (H (mkrec 1 KHole 1 [(10, 3); (100, 4)] []) 100 4) as (rd & Hf & Hn).
+  - left. reflexivity.
+  - reflexivity.
+  - right. left. reflexivity.
+  - vm_compute in Hf. inversion Hf; subst. discriminate Hn.
+Qed.
+Print Assumptions C04_keys_match_names_refuted.
+
+(* REFUTED: "removing a live data set never fails": after a rename the removal raises KeyError('Property:<new name>') *)
+Definition C04_remove_never_fails_full : Prop :=
+  forall ops, ~ In (AHard KeyError) (arun init ops).
+Theorem C04_remove_never_fails_refuted : ~ C04_remove_never_fails_full.
+Proof.
+  intros H.
+  apply (H [AddHole 1 None; AddData 1 0 100 2 3 4 (Some [Some 1000%Z]) [Some 5%Z]; Rename 1 4 104; RemoveData 1 4 false]).
+  vm_compute. right. right. right. left. reflexivity.
+Qed.
+Print Assumptions C04_remove_never_fails_refuted.
+
+(* non-vacuity of the partial theorem and of C04_hole_removal_clears_own_rows: a run with two holes, shared data names,
+   a zero-length array, an update, a removal that shifts a row, and a hole removal *)
+Example C04_api_nonvacuous :
+  let ops := [AddHole 1 (Some [Some 0; Some 1]%Z); AddHole 2 (Some [Some 0]%Z);
+              AddData 1 0 100 3 4 5 (Some [Some 1000; Some 1001]%Z) [Some 7]%Z;
+              AddData 2 0 100 6 7 8 (Some []) [];
+              SetValues 1 5 [Some 9; Some 8]%Z; RemoveData 1 5 true] in
+  exists s, reaches ops s /\ rows_live s /\ objids s = [1; 2]
+    /\ sget 100 (st s) = Some (mktab [mkrow 0 0 2 8] [])
+  /\ exists s', outcome (api_step s (RemoveHole 2 true)) = Some s' /\ objids s' = [1] /\ sget 100 (st s') = Some (mktab [] []).
+Proof.
+  intros ops.
+  destruct (last_state init (arun init ops)) as [s|] eqn:E; [|vm_compute in E; discriminate].
+  assert (R : reaches ops s) by (split; [vm_compute; reflexivity | exact E]).
+  exists s. split; [exact R|]. split; [apply (C04_rows_live_partial ops s); [reflexivity | exact R]|].
+  vm_compute in E. inversion E; subst; clear E R. split; [reflexivity|]. split; [reflexivity|].
+  eexists. split; [vm_compute; reflexivity|]. split; reflexivity.
+Qed.
